@@ -3,39 +3,16 @@ int nondet_int(void);
 size_t nondet_size(void);
 _Bool nondet_bool(void);
 
-static void setup(void)
+static void setup(struct Datatype* base, int through_a_duplicate)
 {
   INIT_BASES;
-  size_t idx = nondet_size();
-  __CPROVER_assume(idx < NKNOWN);
-  g_base = g_known[idx];
+  g_base = base;
   g_dup.duplicated_datatype_ = g_base;
-  g_dtp = nondet_bool() ? &g_dup : g_base;
+  g_dtp = through_a_duplicate ? &g_dup : g_base;
   g_n = nondet_int();
-  __CPROVER_assume(0 <= g_n && g_n <= NMAX);
+  __CPROVER_assume(0 <= g_n && (size_t)g_n <= g_cap);
   g_len = g_n;
   g_nbytes = (size_t)g_n * ELEM_SIZE(g_base);
-  g_a = malloc(g_nbytes);
-  g_b = malloc(g_nbytes);
-  g_b0 = malloc(g_nbytes);
-  __CPROVER_assume(g_a != NULL && g_b != NULL && g_b0 != NULL);
-  memcpy(g_b0, g_b, g_nbytes); /* inoutvec starts with arbitrary content; g_b0 remembers it */
   vf_exc = 0;
 }
 
-#ifdef H_replace
-void harness(void)
-{
-  setup();
-  replace_func(g_a, g_b, &g_len, &g_dtp);
-  VF_CANARY_POINT;
-}
-#endif
-#ifdef H_no_op
-void harness(void)
-{
-  setup();
-  no_func(g_a, g_b, &g_len, &g_dtp);
-  VF_CANARY_POINT;
-}
-#endif
